@@ -164,3 +164,37 @@ func (w *World) hostileRecoveryKind(r *Run, kind string) string {
 	r.Count("hostile:" + kind)
 	return kind
 }
+
+// forgeLowestBlock rewrites the recovery packet with the lowest exponent
+// present (the first one Repair will use) so that it stays valid by the
+// format's checks but carries wrong data.
+func (w *World) forgeLowestBlock(r *Run) bool {
+	bestE := -1
+	bestP := ""
+	var bestPkt ref.Packet
+	var bestB []byte
+	for _, p := range w.RecoveryPaths() {
+		b, ok := w.Disk.Get(p)
+		if !ok {
+			continue
+		}
+		pk, _ := ref.ParsePackets(b)
+		for _, x := range pk {
+			if e, ok := ref.RecoveryExponent(x); ok && (bestE < 0 || int(e) < bestE) {
+				bestE, bestP, bestPkt, bestB = int(e), p, x, b
+			}
+		}
+	}
+	if bestE < 0 || len(bestPkt.Body) < 6 {
+		return false
+	}
+	body := append([]byte(nil), bestPkt.Body...)
+	body[4+r.T.Draw(len(body)-4, "forge-off")] ^= byte(1 + r.T.Draw(255, "forge-xor"))
+	forged := ref.MakePacket(bestPkt.SetID, bestPkt.Type, body)
+	nb := append(append(append([]byte(nil), bestB[:bestPkt.Offset]...), forged...), bestB[bestPkt.Offset+bestPkt.Length:]...)
+	w.Disk.Put(bestP, nb)
+	r.Logf("recovery block %d in %s forged (valid packet, wrong data)", bestE, filepath.Base(bestP))
+	r.Probe("forged-recovery-block")
+	r.Count("hostile:forged-lowest-block")
+	return true
+}
